@@ -589,6 +589,31 @@ def run(program, rep, tier):
     check_prototype(program, rep)
     check_update(program, rep)
     check_update_world(program, rep)
+    # a controller learns (entity, world) from the on_add it is sent EVERY time
+    # it is attached - the attach protocol of World (C02): one notification
+    # per attach for a handler that maps on_add, also when it was attached (or
+    # registered) before
+    from rules import lifecycle
+    out = lifecycle.analyse_world(program, rep, 'C19', None, 'C19')
+    n_att = 0
+    for (rule, fn, text, line, kind, table), r in sorted(
+            out['results'].items(), key=lambda kv: (kv[0][1], kv[0][3] or 0)):
+        if rule != 'protocol' or kind != 'attach' \
+                or table != 'self._entities':
+            continue
+        n_att += 1
+        site = f'desper/logic/world.py:{fn}'
+        if r['bad']:
+            rep.bad('C19.on-add', site, text,
+                    'a controller attached here is not told on_add on some '
+                    'path: it keeps the entity / world of an earlier attach '
+                    f'(or none), every shorthand acts on the wrong entity '
+                    f'[{r["bad"][0]["why"]}]',
+                    detail={'path': r['bad'][0]['path']}, line=line)
+        else:
+            rep.ok('C19.on-add', site, text, 'every attach of a handler that '
+                   'maps on_add notifies it exactly once', line=line)
+    rep.floor('C19.on-add', 'attach sites of components in World', n_att, 2)
     # Controller learns its entity through on_add, which it declares with
     # @event_handler: decorating a Controller subclass with further events must
     # not change what Controller (and its other subclasses) declare
